@@ -7,6 +7,7 @@ import (
 	"go/types"
 	"math/big"
 	"strings"
+	"time"
 
 	"golang.org/x/tools/go/ssa"
 )
@@ -75,6 +76,8 @@ type Interp struct {
 	loopCounts  map[*ssa.BasicBlock]int
 	maxAlloc    int
 	tags        map[string]string
+	Deadline    time.Time
+	MaxDecisions int
 }
 
 type HarnessCfg struct {
@@ -178,6 +181,7 @@ func (in *Interp) decide(kind string, alts []*Term) int {
 		in.pc = append(in.pc, alts[pick])
 		return pick
 	}
+	in.checkDecisionCap()
 	first := -1
 	for i, a := range alts {
 		if b, ok := a.BoolVal(); ok && !b {
@@ -203,6 +207,14 @@ func (in *Interp) decide(kind string, alts []*Term) int {
 	in.Trace = append(in.Trace, Decision{kind, len(alts), first})
 	in.pc = append(in.pc, alts[first])
 	return first
+}
+
+func (in *Interp) checkDecisionCap() {
+	if in.MaxDecisions > 0 && len(in.Trace) >= in.MaxDecisions {
+		_, model := in.query()
+		in.Events = append(in.Events, Event{Kind: "budget", Msg: fmt.Sprintf("more than %d symbolic decisions on one path (loop driven by a symbolic quantity?)", in.MaxDecisions), Where: in.where(), Stack: in.stackNames(), Model: model})
+		in.end("budget", "decision cap")
+	}
 }
 
 // choose is a nondeterministic choice among n always-feasible alternatives.
@@ -431,6 +443,9 @@ func (in *Interp) get(fr *frame, v ssa.Value) Value {
 
 func (in *Interp) step() {
 	in.steps++
+	if in.steps&1023 == 0 && !in.Deadline.IsZero() && time.Now().After(in.Deadline) {
+		in.end("deadline", "exploration deadline reached inside a path")
+	}
 	if in.steps > in.Budget {
 		in.Events = append(in.Events, Event{Kind: "budget", Msg: fmt.Sprintf("instruction budget %d exceeded", in.Budget), Where: in.where(), Stack: in.stackNames()})
 		in.end("budget", "instruction budget")
